@@ -22,7 +22,7 @@ REQUIRED = ["iff_checked:plurality", "iff_checked:approval", "iff_checked:superm
             "margin_checked:oracle_tally", "margin_checked:contest_tally_rules_off", "margin_checked:contest_tally_rules_on",
             "stratum:tie", "stratum:exact_threshold", "stratum:lacking_contest_style_off", "truth:winners_really_won",
             "truth:winners_did_not_win", "margin_tally_holds_write_in_votes",
-            "style_mean_rechecked_after_scoring_cards_lacking_the_contest"]
+            "style_mean_rechecked_after_scoring_cards_lacking_the_contest", "card_count_revised_after_assertions_were_made"]
 ASSUMPTIONS = ["shares f in {1/2,1/4,1/8} (f and 1/(2f) both dyadic) are exact in binary; inexact shares (2/3, 0.6) are only evaluated at a "
                "distance from the threshold that rounding cannot bridge", "a mark for a name that is not on the contest's "
                "candidate list (write-in) appears only on ballots with no mark for a listed candidate, so that no "
@@ -78,6 +78,8 @@ def gen_profile(rng, kind, stratum):
         ballots.append(b)
     winners = rng.sample(cands, k)
     prof = {"kind": kind, "cands": cands, "winners": winners, "share": f, "ballots": ballots}
+    if rng.random() < 0.3:
+        prof["cards_first"] = nb + rng.choice((1, 3, nb))
     if stratum == "tie" and kind != "supermajority":
         force_tie(rng, prof)
     if stratum == "true_winners" and kind != "supermajority":
@@ -163,7 +165,10 @@ def build(prof):
     scf = {"plurality": Contest.SOCIAL_CHOICE_FUNCTION.PLURALITY, "approval": Contest.SOCIAL_CHOICE_FUNCTION.APPROVAL,
            "supermajority": Contest.SOCIAL_CHOICE_FUNCTION.SUPERMAJORITY}[kind]
     ncards = len(prof["ballots"])
-    con = Contest.from_dict({"id": "con", "name": "con", "risk_limit": 0.05, "cards": ncards, "choice_function": scf,
+    # the card count known when the assertions are made may be a preliminary one (revised later by check_cards /
+    # make_phantoms / the canvass): margins from tallies are "over the same cards", i.e. the count the contest holds then
+    con = Contest.from_dict({"id": "con", "name": "con", "risk_limit": 0.05, "cards": prof.get("cards_first") or ncards,
+                             "choice_function": scf,
                              "n_winners": len(prof["winners"]), "share_to_win": prof["share"],
                              "candidates": list(prof["cands"]), "winner": list(prof["winners"]),
                              "audit_type": Audit.AUDIT_TYPE.POLLING, "test": NonnegMean.alpha_mart,
@@ -183,6 +188,7 @@ def build(prof):
             asns = Assertion.make_plurality_assertions(contest=con, winner=winners_arg, loser=losers,
                                                        test=NonnegMean.alpha_mart, estim=NonnegMean.shrink_trunc)
     con._args_mutated = (before != (winners_arg, losers))
+    con.cards = ncards
     return con, cvrs, asns, Contest
 
 
@@ -203,6 +209,8 @@ def run_case(prof, rec):
         return
     con, cvrs, asns, Contest = built
     rec.count("constructor_called_twice_with_same_arguments")
+    if prof.get("cards_first"):
+        rec.count("card_count_revised_after_assertions_were_made")
     if con._args_mutated:
         rec.count("observed:constructor_mutated_its_arguments")  # an observation, not a violation: the property is about the values
     with np.errstate(all="ignore"):
